@@ -168,6 +168,11 @@ NAME_POOL = ["Old High German", "Mid. Dutch", "German", "german", "GERMAN", "Old
              "x.y", "O'odham", "Ewe-1", "\u00c9w\u00e9", "\u00d1and\u00fa", "\u0420\u0443\u0441\u0441\u043a\u0438\u0439",
              "a b c", "A b", "0.5", "e5", "Proto-Indo European", "l\u00e4nsi suomi", "7", "No. 7", "-", "+1.0",
              "Old_Norse", "a_b_c", "_lead", "trail_", "x__y", "Proto_Slavic"]
+# composed (NFC) and decomposed (NFD) spellings of the same name are DIFFERENT taxon names: the harness
+# compares names code point by code point and never normalises
+TWINS = [("Z\u00fcrich", "Zu\u0308rich"), ("S\u00e3o Tom\u00e9", "Sa\u0303o Tome\u0301"), ("\u00c5land", "A\u030aland"),
+         ("Vi\u1ec7t", "Vie\u0323\u0302t"), ("caf\u00e9_au_lait", "cafe\u0301_au_lait"), ("\u00d1u", "N\u0303u")]
+NAME_POOL += [x for pair in TWINS for x in pair]
 
 
 def plain_names(n):
@@ -190,6 +195,13 @@ def gen_case(rng, max_n):
     n = max(lo, min(n, max_n))
     container = rng.choice(["list", "numpy"])
     names = rng.sample(NAME_POOL, n) if rng.random() < 0.5 else None
+    if names is not None and n >= 2 and rng.random() < 0.3:
+        # an NFC/NFD twin pair side by side
+        tw = list(rng.choice(TWINS))
+        rng.shuffle(tw)
+        rest = [x for x in names if x not in tw][:n - 2]
+        names = tw + rest
+        rng.shuffle(names)
     if kind == "ultra":
         t = gen_ultrametric(rng, n)
         return make_case(algo, kind, tree_metric(t, n), t, container, names)
